@@ -111,6 +111,9 @@ type SockCase struct {
 	Open     int    `json:"open"`       // connections open at the moment of Shutdown / during the idle period
 	TimeoutM int    `json:"timeout_ms"` // 0: shutdown scenario (C14); else idle-timeout scenario (C15)
 	Cycles   int    `json:"cycles"`
+	// EarlyStop: before every serving cycle the address is bound and shut down again without ever being served
+	// (Shutdown before the accept loop exists); binding and serving the same address right afterwards must work
+	EarlyStop bool `json:"early_stop,omitempty"`
 }
 
 var sockCounter int64
@@ -218,6 +221,17 @@ func execSock(c SockCase, bound time.Duration) (err error) {
 	for cycle := 0; cycle < c.Cycles; cycle++ {
 		pre := fmt.Sprintf("cycle %d on %s: ", cycle, addr)
 		ctx, cancel := context.WithCancel(context.Background())
+		if c.EarlyStop {
+			if berr := GuardBounded("Bind", bound, func() error { return svc.Bind(ctx, addr) }); berr != nil {
+				cancel()
+				if _, foreign := lateDial(addr, vendor); foreign && c.Kind == "tcp" {
+					return nil
+				}
+				return fmt.Errorf("%sBind (to be shut down before serving) failed: %v", pre, berr)
+			}
+			shutdown()
+			pre += "(after Bind + Shutdown without serving) "
+		}
 		done := make(chan error, 1)
 		if c.Via == "listen" {
 			go func() { done <- svc.Listen(ctx, addr, timeout) }()
@@ -385,6 +399,9 @@ func sockCases(timeoutMS int) []SockCase {
 		for _, via := range []string{"listen", "bind+dolisten"} {
 			for open := 0; open <= 2; open++ {
 				cases = append(cases, SockCase{Kind: k, Via: via, Open: open, TimeoutM: timeoutMS, Cycles: 2})
+				if open < 2 {
+					cases = append(cases, SockCase{Kind: k, Via: via, Open: open, TimeoutM: timeoutMS, Cycles: 2, EarlyStop: true})
+				}
 			}
 		}
 	}
